@@ -59,6 +59,8 @@ def _call(S, entry, x, kw):
         return S.mask_sift(x.copy(), **kw), None
     except W.InjectedFault:
         raise
+    except C.CallTimeout as e:
+        return None, e
     except Exception as e:
         C.reraise_if_harness(e)
         return None, e
@@ -245,14 +247,21 @@ def scenario(w):
     # ---- reference execution: one worker, plain schedule -----------------------------------------
     C.plain_poolcfg(w)
     w.log('reference.begin')
+    import engine
+    t_ref = engine._real_perf()
     ref, ref_exc = _call(S, entry, x, dict(kw, nprocesses=1))
+    t_ref = engine._real_perf() - t_ref
     nref_batches = len(w.batches)
     nref_trace = len(w.stage_trace)
 
     # ---- scheduled execution ---------------------------------------------------------------------
     cfg = C.draw_poolcfg(w)
     w.log('scheduled.begin', nprocesses=nproc)
-    got, got_exc = _call(S, entry, x, dict(kw, nprocesses=nproc))
+    if ref_exc is None:
+        with C.time_limited(max(120, int(40 * t_ref))):
+            got, got_exc = _call(S, entry, x, dict(kw, nprocesses=nproc))
+    else:
+        got, got_exc = _call(S, entry, x, dict(kw, nprocesses=nproc))
     sched_batches = w.batches[nref_batches:]
     desc['pool'] = dict(cfg)
     desc['schedule'] = [{'batch': b['id'], 'assign': b['assign'], 'completion_order': b['order'],
